@@ -23,7 +23,7 @@ RULE = ("Hypothesis-generated combine tasks in a package of depth 0-3 over 1-5 d
 ASSUMPTIONS = ["nothing is demanded for deps whose output directory is empty or absent (the statement excludes them)",
                "git disabled: the cached version of an experiment is its newest recorded one"]
 ESSENTIAL = ["cross_depth", "relink_new_version", "empty_dep_output", "planted_file", "planted_dir", "planted_emptydir",
-             "group_dep", "combine_dep", "cached_rerun", "depth3", "entry_names_with_temp_file_affixes", "planted_dangling_link", "newer_version_appeared_without_a_run"]
+             "group_dep", "combine_dep", "cached_rerun", "depth3", "entry_names_with_temp_file_affixes", "planted_dangling_link", "newer_version_appeared_without_a_run", "package_output_directory_is_a_symlink"]
 TECHNIQUE = "property-based testing (Hypothesis) under the virtual kernel; realpath-equality oracle against the directories recorded at spawn"
 LEVEL_TEXT = "Randomised search over combine layouts and run histories; link targets are compared by realpath with the directories the deps actually received."
 LEVEL_NOTE = "Trusted: vf/kernel.py spawn records and file materialisation."
@@ -85,7 +85,10 @@ def _case(draw, tier):
         if t["kind"] == "exp" and draw(st.sampled_from(range(4))) == 0:
             seeded[str(i)] = [draw(st.sampled_from(range(100, 200)))]
     return {"pkgs": PKGS, "tasks": tasks, "target": target, "seeded": seeded, "jobs": draw(st.sampled_from([None, 2])),
-            "flags": [], "outcomes": {}, "tape": [], "foreign": 0, "history": hist, "writes": writes, "related_names": related}
+            "flags": [], "outcomes": {}, "tape": [], "foreign": 0, "history": hist, "writes": writes, "related_names": related,
+            # the output directory of one package is a symbolic link to a directory elsewhere (outputs moved to a bigger
+            # disk), at another depth than the place it stands for
+            "linked_pkg": draw(st.sampled_from([None, None, None, "combine", "dep", "dep"]))}
 
 
 def strategy(tier):
@@ -126,6 +129,18 @@ def _run(case, root):
                 files[ids[i]] = {"ok": []}
                 if t["kind"] == "cmd":
                     labels.add("empty_dep_output")
+    if case.get("linked_pkg"):
+        cands = [cpkg] if case["linked_pkg"] == "combine" else [case["pkgs"][case["tasks"][d[0]]["pkg"]] for d in cmb["deps"]]
+        cands = [p for p in cands if p]
+        if cands:
+            pkg = cands[0]
+            store = os.path.join(root, "bigdisk", "vol", "0", "outputs-of-" + pkg.replace("/", "_"))
+            os.makedirs(store)
+            link = os.path.join(root, "cond-out", pkg)
+            if not os.path.lexists(link):
+                os.makedirs(os.path.dirname(link), exist_ok=True)
+                os.symlink(store, link)
+                labels.add("package_output_directory_is_a_symlink")
     nontrivial = False
     prev_targets = {}
     summary = {"combine": ids[0], "deps": [ids[d[0]] for d in cmb["deps"]], "runs": []}
